@@ -16,7 +16,7 @@ VERIF = os.path.dirname(os.path.abspath(__file__))
 OUT = os.environ.get("VERIF_OUT", VERIF)   # where evidence and new replay files go (scratch dir for mutant runs)
 REPO = os.environ.get("VERIF_REPO", "/repo")
 CACHE = os.path.join(VERIF, ".cache")
-NCPU = os.cpu_count() or 4
+NCPU = int(os.environ.get("VERIF_JOBS", 0)) or len(os.sched_getaffinity(0)) or 4   # honours taskset
 CXX = "clang++"
 GUARD = "BPP_CORE_VERIF"
 SAN = ["-fsanitize=address,undefined", "-fno-sanitize-recover=undefined", "-fno-omit-frame-pointer"]
